@@ -12,6 +12,7 @@ All numbers hexadecimal unless said otherwise.
   spec envok <shape> <levels>  -> 1 | 0      the adjudicating relation (one or two steps at the turns)
   spec tone <tp>               -> ticks between toggles
   spec noise <np>              -> ticks between LFSR clocks
+  spec envp <ep>               -> ticks between envelope steps
   spec lfsr <x>                -> next 17-bit LFSR value
   spec idx <r7> <volreg> <ch> <tone> <noise> <level>  -> DAC index
   spec place <mode> <ch>       -> <left gain² in halves> <right gain² in halves>
@@ -73,6 +74,7 @@ def handle (s : St) : List String → St × String
   | ["spec", "envok", sh, levels] => (s, bit (Spec.envAccepts (hexNatD sh) (natList levels)))
   | ["spec", "tone", tp] => (s, natHex (Spec.eff (hexNatD tp % 4096)))
   | ["spec", "noise", np] => (s, natHex (2 * Spec.eff (hexNatD np % 32)))
+  | ["spec", "envp", ep] => (s, natHex (Spec.eff (hexNatD ep % 65536)))
   | ["spec", "lfsr", x] => (s, natHex (Spec.lfsr17 (BitVec.ofNat 17 (hexNatD x))).toNat)
   | ["spec", "idx", r7, vol, ch, tone, noise, lvl] =>
     (s, natHex (Spec.channelIndex (bv8 r7) (bv8 vol) (hexNatD ch) (boolD tone) (boolD noise) (hexNatD lvl)))
